@@ -24,5 +24,15 @@ import (
 )
 
 func CreateThread(th *pthread.Thread, attr *pthread.Attr, routine pthread.RoutineFunc, arg c.Pointer) c.Int {
-	return pthread.Create(th, attr, routine, arg)
+	ret := pthread.Create(th, attr, routine, arg)
+	if ret != 0 {
+		// As in Go, failing to start the thread of a goroutine is fatal: the
+		// call of the go statement must not be dropped silently.
+		fatal("failed to create new OS thread")
+		c.Exit(2)
+	}
+	// Goroutine threads are never joined: detach them, so that their
+	// resources are released when the goroutine finishes.
+	pthread.Detach(*th)
+	return ret
 }
